@@ -8,7 +8,10 @@
 \*    drop/pass/prepend, nested Runtime (2 settings), &, Box, Arc, erased, AssertInternal)
 \*    x own/ambient x accepting/rejecting filter x entries rt, direct, emit!; depth <= 1 for the other entries.
 \* R: a nested Runtime as destination: 9 filter predicates x ambient {<>, a, b} x clock {none, 9} x 3 destination trees x 32 events, rt / direct.
-\* W: forms: wrappings by value / borrowed / type-erased, fn-pointer filters and destinations, filter::always(), events built with with_*.
+\* W: forms: wrappings by value / borrowed / type-erased (with and without Send + Sync), fn-pointer filters and destinations,
+\*    filter::always(), events built with with_* / map_props and passed borrowed + erased.
+\* V: forms of the runtime's context / clock / rng: by value, &, Box, Arc, Some, Box<dyn Erased..>, AssertInternal, None, Empty
+\*    x events with / without extent x 4 ambient sets x clock {none, 7} x 3 filter predicates.
 SPECIFICATION Spec
 CONSTANTS
     Scens <- MC_Scens
